@@ -11,19 +11,22 @@
         set of non-overlapping selected fields.
     (3) vs_counts_consistent (full): record count after VSwrite in M (max of old count and position / ivsize + n)
         and in S (length of the table), the offsets VSsetfields stores, and S's read-after-write on tables.
-    (4) vsread_after_vswrite_partial: user and file FULL_INTERLACE (cases C/C, the chunked path), through the
-        model's entry points m_vswrite / m_vsread: every schema of at least two fields, every record count, every
-        transfer-buffer size before either call (so: any number of passes through Vtbuf, split differently by
-        the two calls), every field subset and permutation on read -- the byte VSread delivers at (record,
-        selected field, component, byte) is the byte VSwrite was given there.  One-pass versions for the
-        single-field case E and the two halves (vswrite_pass_fills_records, vsread_pass_projects) are separate
-        theorems.  See the comment at the theorem for the full statement and what is missing.
+    (4) vsread_after_vswrite (two or more fields) and vsread_after_vswrite_single_field: through the model's entry
+        points m_vswrite / m_vsread, for BOTH file interlaces, BOTH user interlaces on the write side and on the
+        read side (cases A, B, C, D, and E for a single field), every schema, every record count, every
+        transfer-buffer size before either call (any number of passes, split differently by the two calls), every
+        read list (subsets, permutations): the byte VSread delivers at (record, selected field, component, byte) of
+        the caller's layout is the byte VSwrite was given at (record, field, component, byte) of its caller's
+        layout.  The halves are theorems of their own: vswrite_lays_out_records (the stream VSwrite produces is the
+        file layout of the records) and vsread_projects_stream (VSread of ANY stream of nelt records -- hence any
+        record range -- delivers the selected cells).  spec_table_cells: the table S parses from a buffer has its
+        cells at the same addresses.  See the comment at the theorem for what is not mechanised.
     (5) gather_scatter_generic (full): the lemma every case reduces to -- any sequence of DFKconvert calls whose
         destination cells do not overlap moves exactly the cells it names and nothing else.
     (6) model_follows_source: the conversion-call / pointer-update skeleton of VSread and VSwrite and the field
         order of the header codec in the CURRENT vrw.c / vio.c are the ones the model was written from. *)
 From Coq Require Import ZArith List Bool Lia.
-Require Import H4.gen.Gen_VS H4.VSModel H4.VTableSpec H4.VSProofs H4.VSCodecProofs H4.VSChunkProofs.
+Require Import H4.gen.Gen_VS H4.VSModel H4.VTableSpec H4.VSProofs H4.VSCodecProofs H4.VSChunkProofs H4.VSLayoutProofs H4.VSFullProofs.
 Import ListNotations.
 Local Open Scope Z_scope.
 
@@ -63,35 +66,75 @@ Qed.
 Print Assumptions vs_counts_consistent.
 
 (** (4) read after write.
-    FULL statement of the property at model level (not proved in this generality):
-      for every well-formed write list (fld_ok, offs_ok), both file interlaces fil (with whole-table transfers
-      when fil = NO_INTERLACE), both user interlaces uw (write) and ur (read), every read list rl of distinct valid
-      indices, every nelt > 0, every transfer-buffer size before either call, and every caller buffer ubuf of
-      nelt * isum fl bytes:
-        m_vswrite w fil uw nelt vtb 0 nv ubuf = Some r ->
-        m_vsread w rl fil ur nelt vtb' (concat (wr_chunks r)) = Some (_, _, out) ->
-        out = read_buf (ur = FULL) rl' (parse (uw = FULL) sizes nelt ubuf) 0 nelt.
-    PROVED (this theorem): uw = ur = fil = FULL_INTERLACE, at least two fields (cases C/C), all passes of the while
-    loops with the chunk sizes the regenerated expressions of vrw.c give, cell by cell.
-    PROVED (next theorems): one pass for a single-field Vdata (case E: the generic write path and the single
-    contiguous conversion of VSread), and the write / read halves of case C with existence and frame.
-    MISSING: (a) the reduction of [wr_a_fields], [wr_b_fields], [wr_d_fields], [rd_a_fields], [rd_b_fields],
-    [rd_d_fields] to [gather_scatter_generic] (field-major layouts: blocks, each of a common stride; case D needs
-    isize = esize, which [fld_ok] carries); (b) lifting case E over the chunk lists (as done for case C in
-    [rd_chunks_spec]); (c) the list-level link from cells to [read_buf] / [parse] (nth of concat of equal-size
-    blocks).  The correspondence check compares R with S on all of these. *)
-Theorem vsread_after_vswrite_partial : forall w rl nelt vtbW pos nv ubuf r vtbR vtbR' lens out,
+    The addresses: [saddr sd n o sz j w i b] is the address of byte b of component j (width w) of the field at
+    offset o (size sz) of record i in a buffer of n records laid out as [sd] says (FULL_INTERLACE: base + o + j*w +
+    i*recsize + b; NO_INTERLACE: base + n*o + j*w + i*sz + b); [buf_side il tot] is a buffer at address 0 in
+    interlace il.  [foffs 0 fl] pairs every field of the schema with its offset in the writer's record, [roffs fl rl 0]
+    every selected field with its offset in the reader's record.
+    NOT mechanised: the restatement of the conclusion as the list equality
+        out = read_buf (ur = FULL) rl (parse (uw = FULL) sizes nelt ubuf) 0 nelt
+    of VTableSpec.v.  [spec_table_cells] shows that [parse] puts the table's cells at these addresses; the same for
+    [layout] (a concat in the same order) is by inspection only.  Reads of a record range other than the whole of
+    what one VSwrite wrote follow from [vsread_projects_stream], which holds for an arbitrary stream. *)
+Theorem vsread_after_vswrite : forall w rl fil uw ur nelt vtbW pos nv ubuf r vtbR vtbR' lens out,
   Forall fld_ok (wl_fields w) -> offs_ok 0 (wl_fields w) -> wl_ivsize w = isum (wl_fields w) ->
-  (2 <= length (wl_fields w))%nat -> rl_ok (wl_fields w) rl -> 0 < nelt ->
+  (2 <= length (wl_fields w))%nat -> rl_ok (wl_fields w) rl ->
+  (fil = 0 \/ fil = 1) -> (uw = 0 \/ uw = 1) -> (ur = 0 \/ ur = 1) -> 0 < nelt ->
   Z.of_nat (length ubuf) = nelt * isum (wl_fields w) ->
-  m_vswrite w FULL_INTERLACE FULL_INTERLACE nelt vtbW pos nv ubuf = Some r ->
-  m_vsread w rl FULL_INTERLACE FULL_INTERLACE nelt vtbR (concat (wr_chunks r)) = Some (vtbR', lens, out) ->
+  m_vswrite w fil uw nelt vtbW pos nv ubuf = Some r ->
+  m_vsread w rl fil ur nelt vtbR (concat (wr_chunks r)) = Some (vtbR', lens, out) ->
   forall f eo uo, In (f, eo) (foffs 0 (wl_fields w)) -> In (f, uo) (roffs (wl_fields w) rl 0) ->
   forall j I b, 0 <= j < w_order f -> 0 <= I < nelt -> 0 <= b < fw f ->
-    nth (Z.to_nat (I * rsum (wl_fields w) rl + uo + j * fw f + b)) out 0 =
-    nth (Z.to_nat (I * isum (wl_fields w) + eo + j * fw f + b)) ubuf 0.
-Proof. exact vsread_after_vswrite_full_full_lemma. Qed.
-Print Assumptions vsread_after_vswrite_partial.
+    nth (Z.to_nat (saddr (buf_side ur (rsum (wl_fields w) rl)) nelt uo (w_esize f) j (fw f) I b)) out 0 =
+    nth (Z.to_nat (saddr (buf_side uw (isum (wl_fields w))) nelt eo (w_esize f) j (fw f) I b)) ubuf 0.
+Proof. exact vsread_after_vswrite_lemma. Qed.
+Print Assumptions vsread_after_vswrite.
+
+(** a single-field Vdata (case E on the read side; both layouts coincide): any interlace arguments *)
+Theorem vsread_after_vswrite_single_field : forall w f rl fil uw ur nelt vtbW pos nv ubuf r vtbR vtbR' lens out,
+  wl_fields w = [f] -> fld_ok f -> w_off f = 0 -> wl_ivsize w = w_isize f -> rl_ok [f] rl ->
+  (uw = 0 \/ uw = 1) -> (ur = 0 \/ ur = 1) -> 0 < nelt -> Z.of_nat (length ubuf) = nelt * w_esize f ->
+  m_vswrite w fil uw nelt vtbW pos nv ubuf = Some r ->
+  m_vsread w rl fil ur nelt vtbR (concat (wr_chunks r)) = Some (vtbR', lens, out) ->
+  forall j I b, 0 <= j < w_order f -> 0 <= I < nelt -> 0 <= b < fw f ->
+    nth (Z.to_nat (I * w_esize f + j * fw f + b)) out 0 = nth (Z.to_nat (I * w_esize f + j * fw f + b)) ubuf 0.
+Proof. exact vsread_after_vswrite_single_lemma. Qed.
+Print Assumptions vsread_after_vswrite_single_field.
+
+(** the write half: the byte strings handed to Hwrite, concatenated, are the records in the file's layout *)
+Theorem vswrite_lays_out_records : forall w fil uw nelt vtb pos nv ubuf r,
+  Forall fld_ok (wl_fields w) -> offs_ok 0 (wl_fields w) -> wl_ivsize w = isum (wl_fields w) ->
+  (2 <= length (wl_fields w))%nat -> (fil = 0 \/ fil = 1) -> (uw = 0 \/ uw = 1) -> 0 < nelt ->
+  Z.of_nat (length ubuf) = nelt * isum (wl_fields w) ->
+  m_vswrite w fil uw nelt vtb pos nv ubuf = Some r ->
+  length (concat (wr_chunks r)) = Z.to_nat (nelt * isum (wl_fields w)) /\
+  forall f eo, In (f, eo) (foffs 0 (wl_fields w)) -> forall j I b, 0 <= j < w_order f -> 0 <= I < nelt -> 0 <= b < fw f ->
+    nth (Z.to_nat (saddr (buf_side fil (isum (wl_fields w))) nelt (w_off f) (w_esize f) j (fw f) I b)) (concat (wr_chunks r)) 0 =
+    nth (Z.to_nat (saddr (buf_side uw (isum (wl_fields w))) nelt eo (w_esize f) j (fw f) I
+                         (ConvModel.perm (fw f) (swap_of (w_type f) (fw f)) b))) ubuf 0.
+Proof. exact vswrite_image_multi. Qed.
+Print Assumptions vswrite_lays_out_records.
+
+(** the read half, for an arbitrary stream of nelt records (so: for every record range of a Vdata) *)
+Theorem vsread_projects_stream : forall w rl fil ur nelt vtb data vtb' lens out,
+  Forall fld_ok (wl_fields w) -> offs_ok 0 (wl_fields w) -> wl_ivsize w = isum (wl_fields w) ->
+  (2 <= length (wl_fields w))%nat -> rl_ok (wl_fields w) rl -> (fil = 0 \/ fil = 1) -> (ur = 0 \/ ur = 1) -> 0 < nelt ->
+  length data = Z.to_nat (nelt * isum (wl_fields w)) ->
+  m_vsread w rl fil ur nelt vtb data = Some (vtb', lens, out) ->
+  forall f uo, In (f, uo) (roffs (wl_fields w) rl 0) -> forall j I b, 0 <= j < w_order f -> 0 <= I < nelt -> 0 <= b < fw f ->
+    nth (Z.to_nat (saddr (buf_side ur (rsum (wl_fields w) rl)) nelt uo (w_esize f) j (fw f) I b)) out 0 =
+    nth (Z.to_nat (saddr (buf_side fil (isum (wl_fields w))) nelt (w_off f) (w_esize f) j (fw f) I
+                         (ConvModel.perm (fw f) (swap_of (w_type f) (fw f)) b))) data 0.
+Proof. exact vsread_projects_multi. Qed.
+Print Assumptions vsread_projects_stream.
+
+(** S: where the cells of the parsed table come from *)
+Theorem spec_table_cells : forall full sz n buf I p k, (I < n)%nat -> (p < length sz)%nat -> (k < nth p sz 0)%nat ->
+  nth k (nth p (nth I (parse full sz n buf) []) []) 0 =
+  nth ((if full then I * VTableSpec.sum sz + VTableSpec.sum (firstn p sz)
+        else n * VTableSpec.sum (firstn p sz) + I * nth p sz 0) + k)%nat buf 0.
+Proof. exact spec_parse_cell. Qed.
+Print Assumptions spec_table_cells.
 
 (** the transfer plans: the chunk sizes both calls use are positive and add up to the record count *)
 Theorem transfer_plans_cover_all_records : forall hsize nelt vtb, 0 < hsize -> 0 < nelt ->
@@ -208,6 +251,19 @@ Proof.
 Qed.
 Example ex_sel_ok : sel_ok 6 [(0, 2); (2, 4)].
 Proof. exact sel_ok_two_fields. Qed.
+(** file NO_INTERLACE: written from a record-major buffer (case D), read back field-major (case B) and record-major (case D) *)
+Example ex_write_read_file_none :
+  let w := mkwl ex_fl 16 in
+  let ubuf := map Z.of_nat (seq 1 32) in
+  match m_vswrite w NO_INTERLACE FULL_INTERLACE 2 0 0 0 ubuf with
+  | Some r => concat (wr_chunks r) = [4;3;2;1; 20;19;18;17; 6;5;8;7; 22;21;24;23; 9;10;11;12;13;14;15;16; 25;26;27;28;29;30;31;32] /\
+              m_vsread w [2; 0] NO_INTERLACE NO_INTERLACE 2 0 (concat (wr_chunks r)) =
+                Some (32, [32], [9;10;11;12;13;14;15;16; 25;26;27;28;29;30;31;32; 1;2;3;4; 17;18;19;20]) /\
+              m_vsread w [2; 0] NO_INTERLACE FULL_INTERLACE 2 0 (concat (wr_chunks r)) =
+                Some (32, [32], [9;10;11;12;13;14;15;16; 1;2;3;4; 25;26;27;28;29;30;31;32; 17;18;19;20])
+  | None => False
+  end.
+Proof. vm_compute. repeat split. Qed.
 Example ex_plans : p_chunks (write_plan 60000 40 0) = [17; 17; 6] /\ p_chunks (read_plan 60000 40 1020000) = [17; 17; 6] /\
   p_chunks (read_plan 16 3 64) = [3].
 Proof. vm_compute. repeat split. Qed.
